@@ -17,6 +17,9 @@ func (fx *FuncCtx) fsuffix(s Sort) string {
 }
 
 func (fx *FuncCtx) mathAbs(a Term) Term {
+	if fx.real {
+		return Ite(app(SBool, "<", a, Term{"0.0", a.Sort}), app(a.Sort, "-", a), a)
+	}
 	if fx.ieee {
 		return app(a.Sort, "fp.abs", a)
 	}
@@ -26,6 +29,9 @@ func (fx *FuncCtx) mathAbs(a Term) Term {
 }
 
 func (fx *FuncCtx) mathIsNaN(a Term) Term {
+	if fx.real {
+		return tFalse
+	}
 	if fx.ieee {
 		return app(SBool, "fp.isNaN", a)
 	}
@@ -35,6 +41,9 @@ func (fx *FuncCtx) mathIsNaN(a Term) Term {
 }
 
 func (fx *FuncCtx) mathIsInf(a Term, sign int64) Term {
+	if fx.real {
+		return tFalse
+	}
 	if fx.ieee {
 		inf := app(SBool, "fp.isInfinite", a)
 		switch {
@@ -66,6 +75,31 @@ func (fx *FuncCtx) libraryModel(st *State, callee *types.Func, qn string, recv V
 		switch callee.Name() {
 		case "Abs":
 			return fx.mathAbs(argT(0)), true
+		case "Floor", "Ceil", "Trunc", "Max", "Min", "Sqrt":
+			if fx.real {
+				a := argT(0)
+				zero := Term{"0.0", a.Sort}
+				floor := func(x Term) Term { return app(a.Sort, "to_real", app(SInt, "to_int", x)) }
+				switch callee.Name() {
+				case "Floor":
+					return floor(a), true
+				case "Ceil":
+					return app(a.Sort, "-", floor(app(a.Sort, "-", a))), true
+				case "Trunc":
+					return Ite(app(SBool, ">=", a, zero), floor(a), app(a.Sort, "-", floor(app(a.Sort, "-", a)))), true
+				case "Max":
+					b := argT(1)
+					return Ite(app(SBool, ">=", a, b), a, b), true
+				case "Min":
+					b := argT(1)
+					return Ite(app(SBool, "<=", a, b), a, b), true
+				case "Sqrt":
+					fx.declFun("real_sqrt", []Sort{a.Sort}, a.Sort)
+					r := app(a.Sort, "real_sqrt", a)
+					st.assume(Implies(app(SBool, ">=", a, zero), And(app(SBool, ">=", r, zero), app(SBool, "=", app(a.Sort, "*", r, r), a))))
+					return r, true
+				}
+			}
 		case "IsNaN":
 			return fx.mathIsNaN(argT(0)), true
 		case "IsInf":
@@ -286,6 +320,20 @@ func (fx *FuncCtx) sortModel(st *State, callee *types.Func, call *ast.CallExpr) 
 		}
 		res := fx.freshConst("sorted", SBool)
 		st.assume(Eq(res, Term{fmt.Sprintf("(forall ((%s Int)) (=> (and (<= 1 %s) (< %s %s)) (not %s)))", q, q, q, sv.Len.S, less.S), SBool}))
+		// The order is a strict weak order, so adjacent sortedness is pairwise
+		// sortedness (induction on the distance; assumed, part of the model of
+		// package sort): res => forall i < j: !less(x[j], x[i]).
+		qi, qj := fx.freshName("q_si"), fx.freshName("q_sj")
+		ai := Select(row, Add(sv.Off, Term{qi, SInt}), es)
+		aj := Select(row, Add(sv.Off, Term{qj, SInt}), es)
+		var lessP Term
+		if es == SInt {
+			lessP = Lt(aj, ai)
+		} else {
+			lt := fx.floatOp(tokenLSS, aj, ai, es, call).(Term)
+			lessP = Or(lt, And(fx.mathIsNaN(aj), Not(fx.mathIsNaN(ai))))
+		}
+		st.assume(Implies(res, Term{fmt.Sprintf("(forall ((%s Int) (%s Int)) (=> (and (<= 0 %s) (< %s %s) (< %s %s)) (not %s)))", qi, qj, qi, qi, qj, qj, sv.Len.S, lessP.S), SBool}))
 		return res, true
 	case "Float64s", "Ints":
 		sv, ok := fx.eval(st, call.Args[0]).(SliceV)
